@@ -212,6 +212,20 @@ check('C08',
       'machine-checked proof in Coq (Q) + correspondence run (vm_compute) + exact-rational monitor',
       'DESIGN.md 5 C08')
 
+check('C17',
+      'Coq theorems (Props/C17.v, axiom-free) about Model/Ufunc.v, which follows Signal.__array_ufunc__ over an ABSTRACT array type and '
+      'an ARBITRARY ufunc with any number of inputs and outputs: for every operand arrangement with a signal among the inputs, result i '
+      'is the ufunc\'s i-th value on the unwrapped data, wrapped as a new signal with the class and metadata of the FIRST signal operand '
+      '(every operand before it is a plain array), or - when out_i is given - the very same out object (a signal keeps its own class and '
+      'metadata; a plain array is returned as an array); every method other than __call__ and matmul is refused; in-place operator chains '
+      'of any length keep identity, class and metadata of their target. The model is evaluated (vm_compute) on the operand pattern of every '
+      'sampled case and its prediction of each result\'s kind/label compared with the implementation; the monitor checks values bit for bit '
+      'against the same ufunc on .data for every NumPy ufunc with <= 2 inputs and <= 2 outputs, all six classes, NumPy and Dask.',
+      'Trusted: Coq kernel; NumPy\'s override protocol calls some operand\'s __array_ufunc__ with inputs in original order (the model does '
+      'not depend on which); results whose dtype a class admits only through its safe cast are compared after that cast (C16).',
+      'machine-checked proof in Coq of a model over abstract arrays and ufuncs + correspondence run (vm_compute) + bit-exact value monitor',
+      'DESIGN.md 5 C17')
+
 ALL = [f'C{i:02d}' for i in range(1, 21)]
 
 def main():
